@@ -416,6 +416,14 @@ Definition installed_state (st : state) (n : string) (src : source) : state :=
 Definition refused (st st' : state) (r : ires) : Prop :=
   st' = st /\ r_new r = None /\ r_existing r = None.
 
+(* when a usable source meets a working plugin of the same name, the only refusals are
+   the three version errors *)
+Definition refusal_class (tbl : table) (st : state) (src : source) (e : ierr) : Prop :=
+  forall n v en ev, candidate tbl src = Some (n, v) -> existing tbl st n = Some (AOk en ev) ->
+                    is_version_err e = true.
+
+Ltac solve_class := intros ? ? ? ? Hc' He'; try reflexivity; try congruence.
+
 Section Install.
   (* the link between ComparePluginVersion and the declarative precedence: proved in
      C20_SemverProofs (compare_plugin_version_spec) and discharged at the end *)
@@ -436,11 +444,13 @@ Section Install.
     | None =>
         exists e, install tbl st src ow = (st, mk_ires None None (Some e))
                   /\ version_err_ok tbl st src ow e = true
+                  /\ refusal_class tbl st src e
     end.
   Proof.
     intros Hwf. unfold install. destruct (locate src) as [e|exe n copy] eqn:Hl.
     - destruct (locate_err src e Hl) as [Hve Hc]. unfold verdict. rewrite Hc.
-      exists e. split; [reflexivity|]. apply version_err_ok_other. exact Hve.
+      exists e. split; [reflexivity|]. split; [apply version_err_ok_other; exact Hve|].
+      intros ? ? ? ? Hc' _. rewrite Hc in Hc'. discriminate.
     - destruct (locate_ok src exe n copy Hwf Hl) as [Hse [Hpn [Hcopy [Hx Hff]]]].
       assert (Hne : copy <> []) by (intros ->; discriminate).
       cbn [install_with].
@@ -461,19 +471,19 @@ Section Install.
       rewrite Hask. clear Hask.
       destruct (tbl_get (f_cid exe) tbl) as [mn v| |] eqn:Ht.
       2:{ unfold verdict. rewrite Hcand. destruct (negb (valid_name n));
-          (exists EMetaInvalid; split; [reflexivity|reflexivity]). }
+          (exists EMetaInvalid; split; [reflexivity|split; [reflexivity|solve_class]]). }
       2:{ unfold verdict. rewrite Hcand. destruct (negb (valid_name n));
-          (exists EMetaInvalid; split; [reflexivity|reflexivity]). }
+          (exists EMetaInvalid; split; [reflexivity|split; [reflexivity|solve_class]]). }
       destruct (String.eqb mn n) eqn:Hmn.
       2:{ unfold verdict. rewrite Hcand. destruct (negb (valid_name n));
-          (exists EMisnamed; split; [reflexivity|reflexivity]). }
+          (exists EMisnamed; split; [reflexivity|split; [reflexivity|solve_class]]). }
       apply str_eqb_eq in Hmn. subst mn.
       unfold get_plugin, dir_get.
       destruct (valid_name n) eqn:Hvn; cbn [negb] in *.
       2:{ unfold verdict. rewrite Hcand.
           destruct ow.
-          - exists ECleanup. unfold do_install. rewrite Hvn. split; reflexivity.
-          - exists EExistCheck. split; reflexivity. }
+          - exists ECleanup. unfold do_install. rewrite Hvn. split; [reflexivity|split; [reflexivity|solve_class]].
+          - exists EExistCheck. split; [reflexivity|split; [reflexivity|solve_class]]. }
       assert (Hex : existing tbl st n =
                 match afind n st with
                 | None => None
@@ -499,17 +509,361 @@ Section Install.
             destruct e; reflexivity. }
           destruct (sv_valid v && sv_valid ev) eqn:Hval; cbn [andb].
           -- destruct (prec_of v ev) eqn:Hp.
-             ++ exists EEqual. split; [reflexivity|]. rewrite Hsit, ?Hval, ?Hp. reflexivity.
-             ++ exists EDowngrade. split; [reflexivity|]. rewrite Hsit, ?Hval, ?Hp. reflexivity.
+             ++ exists EEqual. split; [reflexivity|]. split; [rewrite Hsit, ?Hval, ?Hp; reflexivity|solve_class].
+             ++ exists EDowngrade. split; [reflexivity|]. split; [rewrite Hsit, ?Hval, ?Hp; reflexivity|solve_class].
              ++ rewrite (do_install_ok st n _ _ (n, v) Hvn Hne). reflexivity.
-          -- exists EVersion. split; [reflexivity|]. rewrite Hsit, ?Hval. reflexivity.
+          -- exists EVersion. split; [reflexivity|]. split; [rewrite Hsit, ?Hval; reflexivity|solve_class].
       + destruct ow; [rewrite (do_install_ok st n _ None (n, v) Hvn Hne); reflexivity|].
-        exists EExistMeta. split; reflexivity.
+        exists EExistMeta. split; [reflexivity|split; [reflexivity|solve_class]].
       + destruct ow; [rewrite (do_install_ok st n _ None (n, v) Hvn Hne); reflexivity|].
-        exists EExistMeta. split; reflexivity.
+        exists EExistMeta. split; [reflexivity|split; [reflexivity|solve_class]].
       + destruct ow; [rewrite (do_install_ok st n _ None (n, v) Hvn Hne); reflexivity|].
-        exists EExistMeta. split; reflexivity.
+        exists EExistMeta. split; [reflexivity|split; [reflexivity|solve_class]].
       + destruct ow; [rewrite (do_install_ok st n _ None (n, v) Hvn Hne); reflexivity|].
-        exists EExistMeta. split; reflexivity.
+        exists EExistMeta. split; [reflexivity|split; [reflexivity|solve_class]].
   Qed.
 End Install.
+
+(* ================= Part 4: the theorems of the property ================= *)
+
+(* "v is a valid version of strictly higher SemVer precedence than the valid version ev" *)
+Definition higher (v ev : string) : Prop :=
+  sv_valid v = true /\ sv_valid ev = true /\
+  exists a b, decode (bytes v) = Some a /\ decode (bytes ev) = Some b /\ prec_lt b a.
+
+(* ---- frame of a refused installation: needs no hypothesis at all ---- *)
+Definition frame_ok (st : state) (p : state * ires) : Prop :=
+  r_err (snd p) <> None -> refused st (fst p) (snd p).
+
+Lemma frame_fail st e : frame_ok st (fail st e).
+Proof. intros _. repeat split. Qed.
+
+Lemma frame_do_install st n copy ex nw : frame_ok st (do_install st n copy ex nw).
+Proof.
+  unfold do_install. destruct (negb (valid_name n)); [apply frame_fail|].
+  intros H. exfalso. apply H. reflexivity.
+Qed.
+
+Lemma install_frame tbl st src ow : frame_ok st (install tbl st src ow).
+Proof.
+  unfold install, install_with.
+  repeat match goal with
+         | |- frame_ok _ (fail _ _) => apply frame_fail
+         | |- frame_ok _ (do_install _ _ _ _ _) => apply frame_do_install
+         | |- frame_ok _ (match ?x with _ => _ end) => destruct x
+         | |- frame_ok _ (if ?x then _ else _) => destruct x
+         end.
+Qed.
+
+Theorem refused_frame tbl st src ow st' r :
+  install tbl st src ow = (st', r) -> r_err r <> None ->
+  st' = st /\ r_new r = None /\ r_existing r = None /\ view_of tbl st' = view_of tbl st.
+Proof.
+  intros Hi He. pose proof (install_frame tbl st src ow) as H. rewrite Hi in H.
+  destruct (H He) as [H1 [H2 H3]]. cbn in H1, H2, H3. subst st'. auto.
+Qed.
+
+Lemma uninstall_frame st name st' e : uninstall st name = (st', Some e) -> st' = st.
+Proof.
+  unfold uninstall. destruct (negb (valid_name name)); [intros H; injection H as <- _; reflexivity|].
+  destruct (afind name st); intros H; [discriminate|injection H as <- _; reflexivity].
+Qed.
+
+(* a step is refused when it returns an error *)
+Definition step_refused (res : sres) : Prop :=
+  match res with RInstall r => r_err r <> None | RUninstall e => e <> None end.
+
+Fixpoint all_refused (tbl : table) (st : state) (ops : list op) : Prop :=
+  match ops with
+  | [] => True
+  | o :: r => step_refused (snd (mstep tbl st o)) /\ all_refused tbl (fst (mstep tbl st o)) r
+  end.
+
+Lemma step_refused_frame tbl st o : step_refused (snd (mstep tbl st o)) -> fst (mstep tbl st o) = st.
+Proof.
+  destruct o as [src ow|name]; cbn [mstep].
+  - destruct (install tbl st src ow) as [st' r] eqn:Hi. cbn. intros He.
+    destruct (refused_frame _ _ _ _ _ _ Hi He) as [H _]. exact H.
+  - destruct (uninstall st name) as [st' e] eqn:Hu. cbn. destruct e as [e|]; [|intros H; exfalso; apply H; reflexivity].
+    intros _. apply (uninstall_frame _ _ _ _ Hu).
+Qed.
+
+(* histories of any length: as long as every operation is refused the root stays as it was *)
+Theorem history_refused_frame tbl : forall ops st, all_refused tbl st ops -> final_state tbl st ops = st.
+Proof.
+  induction ops as [|o ops IH]; intros st H; [reflexivity|].
+  cbn [all_refused] in H. destruct H as [H1 H2]. cbn [final_state].
+  rewrite (step_refused_frame _ _ _ H1) in *. apply IH. exact H2.
+Qed.
+
+(* ---- the candidate rule ---- *)
+Theorem candidates_rule base es :
+  let top := top_files es in
+  (forall e1 e2 r, execs top = e1 :: e2 :: r -> locate (SDir base es) = LErr ESrcTwoExec) /\
+  (execs top = [] -> List.length (cands top) <> 1%nat -> locate (SDir base es) = LErr ESrcNoExec) /\
+  (forall e, execs top = [e] -> exists n, pname_of (f_name e) = Some n /\ locate (SDir base es) = LOk e n top) /\
+  (forall c, execs top = [] -> cands top = [c] ->
+     exists n, pname_of (f_name c) = Some n /\
+               locate (SDir base es) = LOk (set_exec c) n (chmod_exec (f_name c) top)).
+Proof.
+  intros top. cbn [locate]. rewrite parse_dir_spec. fold top. unfold parse_spec.
+  repeat split.
+  - intros e1 e2 r He. rewrite He. reflexivity.
+  - intros He Hc. rewrite He. destruct (cands top) as [|x [|y r]]; try reflexivity. exfalso. apply Hc. reflexivity.
+  - intros e He. rewrite He.
+    destruct (execs_in top e) as [_ [Hc _]]; [rewrite He; left; reflexivity|].
+    destruct (is_cand_pname e Hc) as [n Hn]. exists n. rewrite Hn. split; reflexivity.
+  - intros c He Hc. rewrite He, Hc.
+    destruct (cands_in top c) as [_ Hcc]; [rewrite Hc; left; reflexivity|].
+    destruct (is_cand_pname c Hcc) as [n Hn]. exists n. rewrite Hn. split; reflexivity.
+Qed.
+
+(* an error of the source analysis is an error of Install, before anything is touched *)
+Lemma install_locate_err tbl st src ow e : locate src = LErr e ->
+  install tbl st src ow = (st, mk_ires None None (Some e)).
+Proof. intros H. unfold install. rewrite H. reflexivity. Qed.
+
+Theorem candidates_refused tbl st base es ow :
+  let top := top_files es in
+  ((exists e1 e2 r, execs top = e1 :: e2 :: r) \/ (execs top = [] /\ List.length (cands top) <> 1%nat)) ->
+  exists e, install tbl st (SDir base es) ow = (st, mk_ires None None (Some e)) /\
+            (e = ESrcTwoExec \/ e = ESrcNoExec).
+Proof.
+  intros top H. destruct (candidates_rule base es) as [H2 [H0 _]]. fold top in H2, H0.
+  destruct H as [[e1 [e2 [r He]]]|[He Hc]].
+  - exists ESrcTwoExec. split; [apply install_locate_err; eapply H2; exact He|left; reflexivity].
+  - exists ESrcNoExec. split; [apply install_locate_err; apply H0; assumption|right; reflexivity].
+Qed.
+
+(* ---- what a successful installation leaves ---- *)
+Lemma candidate_located tbl src n v : source_ok src = true -> candidate tbl src = Some (n, v) ->
+  exists exe, locate src = LOk exe n (spec_files src) /\ is_exec exe = true /\
+              find_file (bin_name n) (spec_files src) = Some exe /\
+              tbl_get (f_cid exe) tbl = MOk n v /\ valid_name n = true.
+Proof.
+  intros Hwf Hc. destruct (locate src) as [e|exe m copy] eqn:Hl.
+  - destruct (locate_err src e Hl) as [_ H]. rewrite H in Hc. discriminate.
+  - destruct (locate_ok src exe m copy Hwf Hl) as [Hse [Hpn [Hcopy [Hx Hff]]]].
+    unfold candidate in Hc. rewrite Hse, Hpn in Hc.
+    destruct (valid_name m) eqn:Hvn; cbn [negb] in Hc; [|discriminate].
+    destruct (tbl_get (f_cid exe) tbl) as [mn w| |] eqn:Ht; try discriminate.
+    destruct (String.eqb mn m) eqn:E; [|discriminate]. apply str_eqb_eq in E. subst mn.
+    injection Hc as <- <-. subst copy. exists exe. auto.
+Qed.
+
+Lemma installed_answer tbl src n v : source_ok src = true -> candidate tbl src = Some (n, v) ->
+  dir_answer tbl n (map mask (spec_files src)) = AOk n v.
+Proof.
+  intros Hwf Hc. destruct (candidate_located tbl src n v Hwf Hc) as [exe [_ [Hx [Hff [Ht Hvn]]]]].
+  unfold dir_answer, dir_get. rewrite Hvn. cbn [negb].
+  rewrite find_file_map by (intros; reflexivity). rewrite Hff.
+  rewrite ask_mask. unfold ask. rewrite Hx, Ht, str_eqb_refl. reflexivity.
+Qed.
+
+Lemma existing_answer tbl st n d : valid_name n = true -> afind n st = Some d ->
+  existing tbl st n = match dir_answer tbl n d with AAbsent => None | a => Some a end
+  \/ (exists f, find_file (bin_name n) d = Some f /\ ask tbl n f = AAbsent).
+Proof.
+  intros Hvn Hfd. unfold existing, dir_answer, dir_get. rewrite Hfd, Hvn. cbn [negb].
+  destruct (find_file (bin_name n) d) as [f|]; [|left; reflexivity].
+  destruct (ask tbl n f) eqn:Ha; try (left; reflexivity). right. exists f. auto.
+Qed.
+
+Lemma verdict_candidate tbl st src ow n v ex : verdict tbl st src ow = Some (n, v, ex) ->
+  candidate tbl src = Some (n, v).
+Proof.
+  unfold verdict. destruct (candidate tbl src) as [[m w]|]; [|discriminate].
+  destruct (existing tbl st m) as [[en ev| | | |]|]; try (destruct ow; cbn [orb]); try discriminate;
+    try (intros H; injection H as <- <- _; reflexivity).
+  destruct (sv_higher w ev); [|discriminate]. intros H; injection H as <- <- _; reflexivity.
+Qed.
+
+Section Theorems.
+  Hypothesis cpv_spec : forall v w,
+    compare_plugin_version v w = if sv_valid v && sv_valid w then Some (prec_of v w) else None.
+  Hypothesis valid_decodes : forall s, sv_valid s = true -> exists v, decode (bytes s) = Some v.
+  Hypothesis prec_cmp_gt_iff : forall a b, prec_cmp a b = Gt <-> prec_lt b a.
+  Hypothesis prec_cmp_lt_iff : forall a b, prec_cmp a b = Lt <-> prec_lt a b.
+  Hypothesis prec_cmp_eq_iff : forall a b, prec_cmp a b = Eq <-> a = b.
+
+  Lemma sv_higher_iff v ev : sv_higher v ev = true <-> higher v ev.
+  Proof.
+    unfold sv_higher, higher. split.
+    - intros H. apply andb_true_iff in H. destruct H as [H Hp].
+      apply andb_true_iff in H. destruct H as [Hv He].
+      destruct (valid_decodes v Hv) as [a Ha]. destruct (valid_decodes ev He) as [b Hb].
+      repeat split; try assumption. exists a, b. repeat split; try assumption.
+      unfold prec_of in Hp. rewrite Ha, Hb in Hp. apply prec_cmp_gt_iff.
+      destruct (prec_cmp a b); [discriminate|discriminate|reflexivity].
+    - intros [Hv [He [a [b [Ha [Hb Hlt]]]]]]. rewrite Hv, He. cbn [andb].
+      unfold prec_of. rewrite Ha, Hb. apply prec_cmp_gt_iff in Hlt. rewrite Hlt. reflexivity.
+  Qed.
+
+  Lemma install_result tbl st src ow st' r : source_ok src = true ->
+    install tbl st src ow = (st', r) ->
+    match verdict tbl st src ow with
+    | Some (n, v, ex) => st' = installed_state st n src /\ r = mk_ires ex (Some (n, v)) None
+    | None => st' = st /\ exists e, r = mk_ires None None (Some e) /\ version_err_ok tbl st src ow e = true
+                                    /\ refusal_class tbl st src e
+    end.
+  Proof.
+    intros Hwf Hi. pose proof (install_spec cpv_spec tbl st src ow Hwf) as H.
+    destruct (verdict tbl st src ow) as [[[n v] ex]|].
+    - rewrite Hi in H. injection H as -> ->. auto.
+    - destruct H as [e [H1 [H2 H3]]]. rewrite Hi in H1. injection H1 as -> ->. eauto.
+  Qed.
+
+  (* success is exactly the declarative verdict *)
+  Lemma install_success_iff tbl st src ow st' r : source_ok src = true ->
+    install tbl st src ow = (st', r) -> (r_err r = None <-> verdict tbl st src ow <> None).
+  Proof.
+    intros Hwf Hi. pose proof (install_result tbl st src ow st' r Hwf Hi) as H.
+    destruct (verdict tbl st src ow) as [[[n v] ex]|].
+    - destruct H as [_ ->]. cbn. split; [discriminate|reflexivity].
+    - destruct H as [_ [e [-> _]]]. cbn. split; [discriminate|intros H; exfalso; apply H; reflexivity].
+  Qed.
+
+  (* ---- the replacement rule ---- *)
+  Theorem replace_rule tbl st src ow n v en ev st' r :
+    source_ok src = true -> install tbl st src ow = (st', r) ->
+    candidate tbl src = Some (n, v) -> existing tbl st n = Some (AOk en ev) ->
+    (r_err r = None <-> (ow = true \/ higher v ev)) /\
+    (r_err r = None -> r_existing r = Some (en, ev) /\ r_new r = Some (n, v)) /\
+    (ow = false ->
+       (sv_valid v && sv_valid ev = false -> r_err r = Some EVersion) /\
+       (forall a b, sv_valid v = true -> sv_valid ev = true ->
+          decode (bytes v) = Some a -> decode (bytes ev) = Some b ->
+          (a = b -> r_err r = Some EEqual) /\ (prec_lt a b -> r_err r = Some EDowngrade))).
+  Proof.
+    intros Hwf Hi Hc Hex.
+    pose proof (install_result tbl st src ow st' r Hwf Hi) as H.
+    assert (Hver : verdict tbl st src ow = if ow || sv_higher v ev then Some (n, v, Some (en, ev)) else None).
+    { unfold verdict. rewrite Hc, Hex. reflexivity. }
+    rewrite Hver in H.
+    assert (Hcases : forall e, version_err_ok tbl st src ow e = true -> ow = false ->
+               match e with
+               | EDowngrade => sv_valid v && sv_valid ev = true /\ prec_of v ev = Lt
+               | EEqual => sv_valid v && sv_valid ev = true /\ prec_of v ev = Eq
+               | EVersion => sv_valid v && sv_valid ev = false
+               | _ => True
+               end).
+    { intros e He Hno. subst ow. unfold version_err_ok in He. rewrite Hc, Hex in He. cbn [negb andb] in He.
+      destruct e; try exact I.
+      - apply negb_true_iff in He. exact He.
+      - apply andb_true_iff in He. destruct He as [H1 H2]. split; [exact H1|].
+        destruct (prec_of v ev); try discriminate; reflexivity.
+      - apply andb_true_iff in He. destruct He as [H1 H2]. split; [exact H1|].
+        destruct (prec_of v ev); try discriminate; reflexivity. }
+    destruct (ow || sv_higher v ev) eqn:Hgo.
+    - destruct H as [_ ->]. cbn [r_err r_existing r_new].
+      split; [|split].
+      + split; [|reflexivity]. intros _. apply orb_true_iff in Hgo.
+        destruct Hgo as [->|Hh]; [left; reflexivity|right; apply sv_higher_iff; exact Hh].
+      + auto.
+      + intros ->. cbn [orb] in Hgo. apply sv_higher_iff in Hgo.
+        destruct Hgo as [Hv [He [a0 [b0 [Ha0 [Hb0 Hlt]]]]]]. split.
+        * rewrite Hv, He. discriminate.
+        * intros a b _ _ Ha Hb. rewrite Ha0 in Ha. rewrite Hb0 in Hb.
+          injection Ha as <-. injection Hb as <-.
+          apply prec_cmp_gt_iff in Hlt. split.
+          -- intros E. apply prec_cmp_eq_iff in E. congruence.
+          -- intros L. apply prec_cmp_lt_iff in L. congruence.
+    - apply orb_false_iff in Hgo. destruct Hgo as [-> Hnh].
+      destruct H as [_ [e [-> [He Hcl]]]]. cbn [r_err r_existing r_new].
+      pose proof (Hcases e He eq_refl) as Hce.
+      pose proof (Hcl n v en ev Hc Hex) as Hve.
+      split; [|split].
+      + split; [discriminate|]. intros [H|H]; [discriminate|].
+        apply sv_higher_iff in H. congruence.
+      + discriminate.
+      + intros _.
+        split.
+        * intros Hinv. destruct e; try discriminate Hve; try reflexivity;
+            destruct Hce as [Hval _]; congruence.
+        * intros a b Hv Hev Ha Hb. assert (Hval : sv_valid v && sv_valid ev = true) by (rewrite Hv, Hev; reflexivity).
+          assert (Hp : prec_of v ev = prec_cmp a b) by (unfold prec_of; rewrite Ha, Hb; reflexivity).
+          split.
+          -- intros E. apply prec_cmp_eq_iff in E.
+             destruct e; try discriminate Hve; try reflexivity.
+             ++ congruence.
+             ++ destruct Hce as [_ Hce]. congruence.
+          -- intros L. apply prec_cmp_lt_iff in L.
+             destruct e; try discriminate Hve; try reflexivity.
+             ++ congruence.
+             ++ destruct Hce as [_ Hce]. congruence.
+  Qed.
+
+  (* an existing plugin that does not answer properly is replaced only on overwrite *)
+  Theorem replace_broken tbl st src ow n v a st' r :
+    source_ok src = true -> install tbl st src ow = (st', r) ->
+    candidate tbl src = Some (n, v) -> existing tbl st n = Some a ->
+    (forall en ev, a <> AOk en ev) ->
+    (r_err r = None <-> ow = true) /\ (r_err r = None -> r_existing r = None /\ r_new r = Some (n, v)).
+  Proof.
+    intros Hwf Hi Hc Hex Hna.
+    pose proof (install_result tbl st src ow st' r Hwf Hi) as H.
+    assert (Hver : verdict tbl st src ow = if ow then Some (n, v, None) else None).
+    { unfold verdict. rewrite Hc, Hex. destruct a as [en ev| | | |]; try reflexivity.
+      exfalso. apply (Hna en ev). reflexivity. }
+    rewrite Hver in H. destruct ow.
+    - destruct H as [_ ->]. cbn. split; [split; reflexivity|auto].
+    - destruct H as [_ [e [-> _]]]. cbn. split; [split; discriminate|discriminate].
+  Qed.
+
+  (* no plugin of that name: the installation goes through *)
+  Theorem install_fresh tbl st src ow n v st' r :
+    source_ok src = true -> install tbl st src ow = (st', r) ->
+    candidate tbl src = Some (n, v) -> existing tbl st n = None ->
+    r = mk_ires None (Some (n, v)) None /\ st' = installed_state st n src.
+  Proof.
+    intros Hwf Hi Hc Hex.
+    pose proof (install_result tbl st src ow st' r Hwf Hi) as H.
+    unfold verdict in H. rewrite Hc, Hex in H. destruct H as [-> ->]. auto.
+  Qed.
+
+  (* an unusable source, or invalid / misnamed metadata, is refused *)
+  Theorem refused_unusable tbl st src ow st' r :
+    source_ok src = true -> install tbl st src ow = (st', r) ->
+    candidate tbl src = None -> r_err r <> None /\ st' = st.
+  Proof.
+    intros Hwf Hi Hc.
+    pose proof (install_result tbl st src ow st' r Hwf Hi) as H.
+    unfold verdict in H. rewrite Hc in H. destruct H as [-> [e [-> _]]]. cbn. split; [discriminate|reflexivity].
+  Qed.
+
+  (* ---- after a successful installation ---- *)
+  Theorem installed tbl st src ow st' r :
+    source_ok src = true -> install tbl st src ow = (st', r) -> r_err r = None ->
+    exists n v,
+      candidate tbl src = Some (n, v) /\ r_new r = Some (n, v) /\
+      afind n st' = Some (map mask (spec_files src)) /\          (* exactly the files of the source *)
+      (forall k, k <> n -> afind k st' = afind k st) /\          (* no other plugin touched *)
+      aremove n st' = aremove n st /\
+      existing tbl st' n = Some (AOk n v) /\                     (* Get + GetMetadata: the new metadata *)
+      In n (v_list (view_of tbl st')) /\                         (* List *)
+      uninstall st' n = (aremove n st, None) /\                  (* Uninstall removes exactly that directory *)
+      afind n (aremove n st) = None.
+  Proof.
+    intros Hwf Hi He.
+    pose proof (install_result tbl st src ow st' r Hwf Hi) as H.
+    destruct (verdict tbl st src ow) as [[[n v] ex]|] eqn:Hv.
+    2:{ destruct H as [_ [e [-> _]]]. discriminate. }
+    destruct H as [-> ->]. exists n, v.
+    pose proof (verdict_candidate _ _ _ _ _ _ _ Hv) as Hc.
+    destruct (candidate_located tbl src n v Hwf Hc) as [exe [_ [Hx [Hff [Ht Hvn]]]]].
+    assert (Hfind : afind n (installed_state st n src) = Some (map mask (spec_files src)))
+      by (unfold installed_state; apply afind_ainsert_same).
+    assert (Hrem : aremove n (installed_state st n src) = aremove n st)
+      by (unfold installed_state; rewrite aremove_ainsert_same; apply aremove_idem).
+    repeat split; try assumption; try reflexivity.
+    - intros k Hk. unfold installed_state. rewrite afind_ainsert_other by exact Hk. apply afind_aremove_other. exact Hk.
+    - pose proof (installed_answer tbl src n v Hwf Hc) as Hans.
+      unfold existing. rewrite Hfind. unfold dir_answer, dir_get in Hans. rewrite Hvn in Hans. cbn [negb] in Hans.
+      destruct (find_file (bin_name n) (map mask (spec_files src))) as [f|]; [|discriminate].
+      rewrite Hans. reflexivity.
+    - cbn [view_of v_list]. unfold installed_state. apply in_keys_ainsert.
+    - unfold uninstall. rewrite Hvn. cbn [negb]. rewrite Hfind, Hrem. reflexivity.
+    - apply afind_aremove_same.
+  Qed.
+
+End Theorems.
